@@ -29,6 +29,17 @@ type cmd struct {
 	p   payload
 }
 
+// receiver wraps one package-typed `Commands` variable and one `Command` variable that live
+// across several UnmarshalBinary calls (what an application's receive loop does).
+type receiver struct {
+	decode  func(up bool, b []byte) error // Commands.UnmarshalBinary into the variable
+	keep    func() func() []cmd           // shallow copy (slice header) of the variable now; the result reads it later
+	isNil   func() bool
+	length  func() int
+	decode1 func(up bool, b []byte) error // Command.UnmarshalBinary into the variable
+	keep1   func() func() cmd             // struct copy of the Command variable now
+}
+
 // generation modes
 const (
 	inRange  = 0 // random values within the specified widths
@@ -52,6 +63,7 @@ type pkg struct {
 	unmarshal  func(up bool, b []byte) ([]cmd, error)
 	unmarshal1 func(up bool, b []byte) (cmd, error)
 	term       func(p payload) string
+	newRecv    func() *receiver // a Commands and a Command variable that are decoded into repeatedly
 	gens       []gen
 	// CIDs without payload in a direction (e.g. PackageVersionReq)
 	bareDown, bareUp []byte
@@ -169,6 +181,30 @@ func csPkg() *pkg {
 			var c cs.Command
 			err := c.UnmarshalBinary(up, b)
 			return back(c), err
+		},
+		newRecv: func() *receiver {
+			var c cs.Commands
+			var c1 cs.Command
+			return &receiver{
+				decode: func(up bool, b []byte) error { return c.UnmarshalBinary(up, b) },
+				keep: func() func() []cmd {
+					k := c // shallow copy: same backing array
+					return func() []cmd {
+						var out []cmd
+						for _, x := range k {
+							out = append(out, back(x))
+						}
+						return out
+					}
+				},
+				isNil:   func() bool { return c == nil },
+				length:  func() int { return len(c) },
+				decode1: func(up bool, b []byte) error { return c1.UnmarshalBinary(up, b) },
+				keep1: func() func() cmd {
+					k := c1
+					return func() cmd { return back(k) }
+				},
+			}
 		},
 		term:     csTerm,
 		bareDown: []byte{0x00}, bareUp: []byte{0x03},
@@ -343,6 +379,30 @@ func mcPkg() *pkg {
 			var c mc.Command
 			err := c.UnmarshalBinary(up, b)
 			return back(c), err
+		},
+		newRecv: func() *receiver {
+			var c mc.Commands
+			var c1 mc.Command
+			return &receiver{
+				decode: func(up bool, b []byte) error { return c.UnmarshalBinary(up, b) },
+				keep: func() func() []cmd {
+					k := c // shallow copy: same backing array
+					return func() []cmd {
+						var out []cmd
+						for _, x := range k {
+							out = append(out, back(x))
+						}
+						return out
+					}
+				},
+				isNil:   func() bool { return c == nil },
+				length:  func() int { return len(c) },
+				decode1: func(up bool, b []byte) error { return c1.UnmarshalBinary(up, b) },
+				keep1: func() func() cmd {
+					k := c1
+					return func() cmd { return back(k) }
+				},
+			}
 		},
 		term:     mcTerm,
 		bareDown: []byte{0x00}, bareUp: []byte{0x06},
@@ -549,6 +609,30 @@ func frPkg() *pkg {
 			err := c.UnmarshalBinary(up, b)
 			return back(c), err
 		},
+		newRecv: func() *receiver {
+			var c fr.Commands
+			var c1 fr.Command
+			return &receiver{
+				decode: func(up bool, b []byte) error { return c.UnmarshalBinary(up, b) },
+				keep: func() func() []cmd {
+					k := c // shallow copy: same backing array
+					return func() []cmd {
+						var out []cmd
+						for _, x := range k {
+							out = append(out, back(x))
+						}
+						return out
+					}
+				},
+				isNil:   func() bool { return c == nil },
+				length:  func() int { return len(c) },
+				decode1: func(up bool, b []byte) error { return c1.UnmarshalBinary(up, b) },
+				keep1: func() func() cmd {
+					k := c1
+					return func() cmd { return back(k) }
+				},
+			}
+		},
 		term:     frTerm,
 		bareDown: []byte{0x00}, bareUp: []byte{0x08},
 		gens: []gen{
@@ -733,6 +817,30 @@ func fwPkg() *pkg {
 			err := c.UnmarshalBinary(up, b)
 			return back(c), err
 		},
+		newRecv: func() *receiver {
+			var c fw.Commands
+			var c1 fw.Command
+			return &receiver{
+				decode: func(up bool, b []byte) error { return c.UnmarshalBinary(up, b) },
+				keep: func() func() []cmd {
+					k := c // shallow copy: same backing array
+					return func() []cmd {
+						var out []cmd
+						for _, x := range k {
+							out = append(out, back(x))
+						}
+						return out
+					}
+				},
+				isNil:   func() bool { return c == nil },
+				length:  func() int { return len(c) },
+				decode1: func(up bool, b []byte) error { return c1.UnmarshalBinary(up, b) },
+				keep1: func() func() cmd {
+					k := c1
+					return func() cmd { return back(k) }
+				},
+			}
+		},
 		term:     fwTerm,
 		bareDown: []byte{0x00}, bareUp: []byte{0x06},
 		gens: []gen{
@@ -817,4 +925,8 @@ func cmdsKey(pk *pkg, cs []cmd) string {
 		s[i] = t
 	}
 	return strings.Join(s, "+")
+}
+
+func setDataFragmentPayload(p payload, b []byte) {
+	p.(*fr.DataFragmentPayload).Payload = b
 }
